@@ -188,11 +188,30 @@ def copy_cases():
             "field": st.sampled_from(["order", "config", "vel_rev", "vpot", "ekin", "pos", "vel", "box"]),
             "extra": seg_st(5),
             "maxlen": st.integers(1, 40),
+            # a path that holds more frames than its own limit: load_path fills the frame list directly and
+            # load_paths_from_disk lowers maxlen to the configured maxlength afterwards
+            "overlong": st.sampled_from([False, False, True]),
         }
     )
 
 
 def body_copy(rec, c):
+    if c.get("overlong") and len(c["frames"]) > c["maxlen"]:
+        path = mk_path(c["frames"], 100, 3)
+        path.maxlen = c["maxlen"]
+        before = view(path)
+        cp = path.copy()
+        rec.case(key=c, nontrivial=True, classes=["copy", "copy:path-longer-than-its-limit"], sample=None)
+        vc = view(cp)
+        rec.check(vc == before[: len(vc)], "copy:frames-of-an-over-long-path", f"{len(vc)} frames of {len(before)}")
+        own = {id(fr) for fr in path.phasepoints}
+        shared = [j for j, fr in enumerate(cp.phasepoints) if id(fr) in own]
+        rec.check(not shared, "copy:original-changed", f"the copy of a path of {len(before)} frames with maxlen {c['maxlen']} holds the original's own frame objects at {shared[:5]}")
+        for j, fr in enumerate(cp.phasepoints):
+            fr.order = [77.0 + j]
+            fr.vel_rev = not fr.vel_rev
+        rec.check(view(path) == before, "copy:original-changed", "frames of the original differ after every frame of the copy was re-assigned (over-long path)")
+        return
     frames = c["frames"][: c["maxlen"]]
     path = mk_path(frames, c["maxlen"], 3)
     path.status, path.generated, path.path_number = "ACC", ("sh", 0.1, 2, 3), 11
